@@ -233,6 +233,15 @@ theorem code_language_scan_returns (v : Str) (h : Ids.utf8Valid v = true) :
     (ScanLang.scanClass v).Returns :=
   ScanLang.scanClass_returns v (Ids.sep_of_utf8Valid v h)
 
+/-- **What the scan finds is a class of the attribute**: the returned language follows an occurrence
+of `language-` that is at the start of the value or behind an ASCII whitespace, is not empty, contains
+no ASCII whitespace and ends at the next ASCII whitespace or at the end of the value; and the whole
+attribute is dropped from the remaining attributes exactly when that class is the whole value
+(`ScanLang.IsLanguageClass`). -/
+theorem code_language_scan_finds_class (v : Str) {lang : Str} {keep : Bool}
+    (h : ScanLang.scanClass v = .ok ⟨some lang, keep⟩) : ScanLang.IsLanguageClass v lang keep :=
+  ScanLang.scanClass_language v h
+
 example : ScanLang.scanClass (bs "hljs language-rust x") = .ok ⟨some (bs "rust"), true⟩ := by decide
 example : ScanLang.scanClass (bs "language-rust") = .ok ⟨some (bs "rust"), false⟩ := by decide
 example : ScanLang.scanClass (bs "xlanguage-a language- b") = .ok ⟨none, true⟩ := by decide
@@ -352,6 +361,7 @@ end Scanners
 #print axioms call_member_key_returns
 #print axioms call_member_key_display
 #print axioms code_language_scan_returns
+#print axioms code_language_scan_finds_class
 #print axioms tag_display_name_returns
 #print axioms plain_reply_fallback_terminates
 #print axioms word_match_bytes_returns
